@@ -53,7 +53,7 @@ def _worker():
     import bromelia.setup as S
     app = T.Obj(S.Diameter, idict={"config": T.DictOf(LOCAL_NODE_HOSTNAME=T.Str(minlen=1, maxlen=64),
                                                      LOCAL_NODE_REALM=T.Str(minlen=1, maxlen=64))})
-    return T.Obj(BB.Worker, idict={"name": T.Const("w"), "app": app,
+    return T.Obj(BB.Worker, idict={"name": T.Const("w"), "_name": T.Const("w"), "app": app,
                                    "is_open": T.Sync("event", flag=True),
                                    "send_lock": T.Sync("lock"), "send_queue": T.Sync("queue"),
                                    "send_event": T.Sync("event")})
@@ -238,6 +238,7 @@ class _DecorateAtCall:
     accepts = _plain_answer
     effect = _return_the_answer
     proof = "table"
+    native_real = True
     modifies = {"answer._header._application_id": T.Bytes(4), "answer._header._hop_by_hop": T.Bytes(4),
                 "answer._header._end_to_end": T.Bytes(4), "answer._header._flags": T.Bytes(1),
                 "answer._header._length": T.Bytes(3), "answer.session_id_avp._data": T.Bytes(minlen=1, maxlen=4096)}
